@@ -39,6 +39,7 @@ type verifNet struct {
 	listened []int
 	conns    []*verifUDPConn
 	nextEph  int
+	busyIP   string // every port of this local address is taken
 }
 
 var errVerifBusy = errors.New("verif: port busy")
@@ -52,6 +53,9 @@ func (n *verifNet) Interfaces() ([]*transport.Interface, error) {
 func (n *verifNet) ListenUDP(network string, a *net.UDPAddr) (transport.UDPConn, error) {
 	port := a.Port
 	n.listened = append(n.listened, port)
+	if n.busyIP != "" && a.IP.String() == n.busyIP {
+		return nil, errVerifBusy
+	}
 	if n.outcome != nil {
 		switch n.outcome(port) {
 		case 1:
